@@ -138,6 +138,25 @@ fn dep_enumerate(_t: Tier) -> Box<dyn Iterator<Item = DepCase>> {
             out.push(DepCase { text: format!("{}:{}:{}:{}", p, p, q, q) });
         }
     }
+    // paths from all segment sequences of length 0-6 over {'..', 'a', 'b', ''} behind three patterns
+    const SEG: [&str; 4] = ["..", "a", "b", ""];
+    let mut cur: Vec<String> = vec![String::new()];
+    let mut all: Vec<String> = vec![String::new()];
+    for _ in 0..6 {
+        let mut next = vec![];
+        for c in &cur {
+            for s in SEG {
+                next.push(if c.is_empty() && next.len() < 4 && cur.len() == 1 { s.to_string() } else { format!("{}/{}", c, s) });
+            }
+        }
+        all.extend(next.iter().cloned());
+        cur = next;
+    }
+    for path in all {
+        for p in ["pkg-[0-9]*", "pkg>=1", "pkg>1>2"] {
+            out.push(DepCase { text: format!("{}:{}", p, path) });
+        }
+    }
     Box::new(out.into_iter())
 }
 
